@@ -9,7 +9,7 @@ RULE = ('tee_map with 1-4 branches of random pipelines (streaming, filtering, re
         'three join modes, on 1-3 interleaved keys with reused slots, under group_by/roll/split, and on plain observables. '
         'Oracle: every branch pipeline is ALSO run alone on the same trace; the join specification (merge / zip / '
         'combine_latest as in the property text) applied to the recorded branch outputs, per key and per source event, must '
-        'equal the tee output. non-trivial = >= 2 branches emitting different numbers of items; distinct = distinct JSON')
+        'equal the tee output. a scale family: 70-270 keys live at once, created in waves while join cells of earlier keys are pending (branches of different cadence). non-trivial = >= 2 branches emitting different numbers of items; distinct = distinct JSON')
 ASSUMPTIONS = ['branches emit no unhandled mux error (errors_handled)']
 
 
@@ -18,6 +18,15 @@ def generate(rng, tier):
     cases = []
     for _ in range(n):
         cases.append(gen_case(rng, len(cases)))
+    for _ in range({'quick': 8, 'thorough': 200, 'search': 3}[tier]):
+        # scale: tens to hundreds of simultaneously live keys (queue growth, cell indices key[0]*n+i beyond word and
+        # block boundaries), branches of different cadence so that cells stay pending while other keys are created
+        brs = rng.choice([[[['first']], [['last']], [['count', 1]]], [[['count', 0]], [['lag', 1]]],
+                          [[['identity']], [['scan', ['add'], muxgen.ev(0), 0, None]], [['first']]],
+                          [[['take', 1]], [['count', 1]], [['identity']], [['last']]]])
+        mode = rng.choice(['zip', 'zip', 'combine_latest', 'merge'])
+        cases.append({'ast': [['tee', mode, brs]], 'trace': muxgen.gen_trace_scale(rng, rng.choice(['many', 'many', 'long2'])),
+                      'mode': mode, 'branches': brs, 'ctx': 'top', 'scale': True})
     return cases
 
 
